@@ -97,6 +97,7 @@ type Module struct {
 	Text     string
 	Forms    int
 	Axioms   int
+	Declares map[string]bool
 }
 
 type Prelude struct {
@@ -125,7 +126,7 @@ func loadPrelude(dir string) (*Prelude, error) {
 }
 
 func (p *Prelude) addModule(name, text string) error {
-	m := &Module{Name: name, Text: text}
+	m := &Module{Name: name, Text: text, Declares: map[string]bool{}}
 	for _, line := range strings.Split(m.Text, "\n") {
 		if strings.HasPrefix(line, ";; requires:") {
 			m.Requires = append(m.Requires, strings.Fields(strings.TrimPrefix(line, ";; requires:"))...)
@@ -159,6 +160,7 @@ func (p *Prelude) addModule(name, text string) error {
 				sig.Args = append(sig.Args, a.String())
 			}
 			p.Sigs[sig.Name] = sig
+			m.Declares[sig.Name] = true
 		case "declare-const":
 			p.Sigs[fm.list[1].atom] = &FnSig{Name: fm.list[1].atom, Ret: fm.list[2].String()}
 		case "define-fun", "define-fun-rec":
